@@ -217,7 +217,9 @@ func handleObjectWithAssociation(metaBkt *bbolt.Bucket, diff *CountersDiff, curr
 		}
 
 		st := objectStatus(metaCursor, target, currEpoch)
-		if st == statusTombstoned {
+		// expiration hides the tombstone in the status, but an expired object
+		// can be locked and a removed one can not
+		if st == statusTombstoned || st == statusExpired && inGarbage(metaCursor, target) == statusTombstoned {
 			return logicerr.Wrap(apistatus.ErrObjectAlreadyRemoved)
 		}
 
